@@ -112,6 +112,16 @@ def gen_cases(rng, tier, scale):
         obs_ops = [o for o in ops + seq if o.split(' ')[0] in ('regs', 'regt', 'r', 'rt')]
         main_idx = [i for i, o in enumerate(obs_ops) if o.startswith('r ') or o.startswith('rt ')]
         cases.append({'line': f'rec{kr} ' + ' ; '.join(ops + seq), 'kind': 'entries', 'tpl': tsrc, 'nsetup': 3, 'main_idx': main_idx, 'pi': False, 'tags': ['bounded-recursion']})
+    # ... and mutual recursion back to the ROOT template through the top level of a second registered template
+    CHAIN = {'v': 1, 'next': {'v': 2, 'next': {'v': 3}}}
+    for km, (tsrc, step) in enumerate([('{{v}}{{#if next}}-{{> step}}{{/if}}', '{{> main next}}'), ('{{v}}{{#with next}}-{{> step}}{{/with}}', '{{> main}}'),
+                                       ('[{{v}}{{#if next}}{{> step next}}{{/if}}]', '{{> main}}'), ('{{v}}{{#if next}}{{#> step}}-{{/step}}{{/if}}', '{{> @partial-block}}{{> main next}}')]):
+        Dj = jtok(CHAIN)
+        ops = [f'regs {x("step")} {x(step)}', f'regs {x("main")} {x(tsrc)}', f'regs {x("other")} {x("o")}']
+        seq = [f'r {e} {x("main")} {Dj} -1' for e in (0, 1, 2, 3)] + [f'rt {e} {x(tsrc)} {Dj} -1' for e in (4, 5, 6, 7)] + [f'regt {x("pre")} 1 {x(tsrc)}', f'r 0 {x("pre")} {Dj} -1']
+        obs_ops = [o for o in ops + seq if o.split(' ')[0] in ('regs', 'regt', 'r', 'rt')]
+        main_idx = [i for i, o in enumerate(obs_ops) if o.startswith('r ') or o.startswith('rt ')]
+        cases.append({'line': f'mrec{km} ' + ' ; '.join(ops + seq), 'kind': 'entries', 'tpl': tsrc, 'nsetup': 3, 'main_idx': main_idx, 'pi': False, 'tags': ['mutual-recursion']})
     # history independence: render_template* under configuration B gives the same bytes whether the registry (or a
     # clone of it) rendered the same template string under configuration A before or not
     k3 = 0
